@@ -15,6 +15,7 @@ import (
 	"fmt"
 	"io"
 	"net"
+	"net/netip"
 	"net/url"
 	"os"
 	"sort"
@@ -26,6 +27,7 @@ import (
 
 	"github.com/daeuniverse/dae/common/consts"
 	commonerrors "github.com/daeuniverse/dae/common/errors"
+	"github.com/daeuniverse/dae/common/netutils"
 	"github.com/daeuniverse/dae/component/outbound"
 	"github.com/daeuniverse/dae/component/outbound/dialer"
 	D "github.com/daeuniverse/outbound/dialer"
@@ -41,6 +43,29 @@ func (c16Noop) DialContext(context.Context, string, string) (netproxy.Conn, erro
 
 // read from the real code in TestVerifC16 (VParams); the model gets the same values as parameters
 var c16Quiesce, c16TTL, c16Cleanup = 20 * time.Second, 15 * time.Minute, 5 * time.Minute
+
+// proxy addresses: the SAME host on different ports are different addresses for the failure table
+func c16Addr(id int) string {
+	if id == 0 {
+		return ""
+	}
+	return fmt.Sprintf("proxy.example:%d", 443+8000*(id-1))
+}
+
+func c16FailTable() string {
+	m := dialer.VProxyFailures()
+	var parts []string
+	for id := 1; id <= 4; id++ {
+		if c, ok := m[c16Addr(id)]; ok {
+			parts = append(parts, fmt.Sprintf("%d:%d", id, c))
+			delete(m, c16Addr(id))
+		}
+	}
+	for k, c := range m { // an address the harness never used: show it verbatim
+		parts = append(parts, fmt.Sprintf("%s:%d", k, c))
+	}
+	return strings.Join(parts, ",")
+}
 
 var c16Typs = []string{"t4", "t6", "T4", "T6", "d4", "d6", "u4", "u6", "x4", "x6", "d4", "d6", "u4", "u6", "y4", "y6", "z4", "z6", "a4", "a6", "b4", "b6"}
 
@@ -166,6 +191,7 @@ type c16Scn struct {
 	nextN    int
 	nextG    int
 	nEv      int
+	preCnt   int
 	distinct map[string]struct{}
 }
 
@@ -258,21 +284,8 @@ func (s *c16Scn) dump() string {
 		}
 	}
 	fmt.Fprintf(&sb, "] K[%s] P[now=%d sup=%s pf=%s]", kb.String(), int64(time.Since(s.t0)),
-		c16Bool(dialer.VSuppressed()), dialer.VProxyFailures())
+		c16Bool(dialer.VSuppressed()), c16FailTable())
 	return sb.String()
-}
-
-// ---- logger hook: observe entry into markUnavailableFromProxyFailure (the escalation)
-
-type c16Hook struct{ s *c16Scn }
-
-func (h *c16Hook) Levels() []logrus.Level { return []logrus.Level{logrus.WarnLevel} }
-func (h *c16Hook) Fire(e *logrus.Entry) error {
-	if strings.Contains(e.Message, "persistent proxy IP failures") {
-		name, _ := e.Data["dialer"].(string)
-		h.s.esc = append(h.s.esc, strings.TrimPrefix(name, "n"))
-	}
-	return nil
 }
 
 func newC16Scn(r *dialer.VRand, st *dialer.VStream, stats *dialer.VStats) *c16Scn {
@@ -280,7 +293,6 @@ func newC16Scn(r *dialer.VRand, st *dialer.VStream, stats *dialer.VStats) *c16Sc
 	s.log = logrus.New()
 	s.log.SetOutput(io.Discard)
 	s.log.SetLevel(logrus.WarnLevel)
-	s.log.AddHook(&c16Hook{s})
 	s.opt = &dialer.GlobalOption{Log: s.log, CheckInterval: 30 * time.Second}
 	s.t0 = time.Now()
 	dialer.VResetGlobals()
@@ -345,9 +357,6 @@ func (s *c16Scn) emit(head string, nodes []*c16Node) string {
 			}
 		}
 	}
-	if len(s.esc) > 0 {
-		s.stats.Inc("escalation")
-	}
 	s.stats.Inc("op." + strings.SplitN(head, " ", 2)[0])
 	s.trans, s.cbs, s.esc = nil, nil, nil
 	s.nEv++
@@ -357,10 +366,7 @@ func (s *c16Scn) emit(head string, nodes []*c16Node) string {
 func (s *c16Scn) addNode(addr int) *c16Node {
 	n := &c16Node{id: s.nextN, addr: addr}
 	s.nextN++
-	a := ""
-	if addr != 0 {
-		a = fmt.Sprintf("addr%d", addr)
-	}
+	a := c16Addr(addr)
 	n.d = dialer.NewDialer(c16Noop{}, s.opt, dialer.InstanceOption{DisableCheck: true},
 		&dialer.Property{Property: D.Property{Name: fmt.Sprintf("n%d", n.id), Address: a}})
 	n.d.RegisterAliveTransitionCallback(func(nt *dialer.NetworkType, alive bool) {
@@ -434,6 +440,15 @@ func (s *c16Scn) probe(n *c16Node, tok string, a1, a2 string) string {
 			time.Sleep(time.Duration(ns))
 			return true, nil
 		case a == "cancel":
+			if s.r.Chance(0.4) {
+				// the REAL HttpCheck under a cancelled context: its error must still be recognised as a cancellation
+				cctx, cancel := context.WithCancel(ctx)
+				cancel()
+				u, _ := url.Parse("http://probe.invalid/generate_204")
+				_, err := n.d.HttpCheck(cctx, dialer.IdxTcp4, &netutils.URL{URL: u}, netip.MustParseAddr("192.0.2.1"), "GET", 0, false)
+				s.stats.Inc("probe.real_httpcheck_cancelled")
+				return false, err
+			}
 			return false, c16Canceled[s.r.Intn(len(c16Canceled))]
 		case a == "skip":
 			return false, nil
@@ -442,6 +457,7 @@ func (s *c16Scn) probe(n *c16Node, tok string, a1, a2 string) string {
 	})
 	sup := dialer.VSuppressed()
 	pre := n.d.MustGetAlive(c16NT(tok))
+	s.preCnt = c16AliveCount(n)
 	_, _ = n.d.Check(opt)
 	impl := s.emit(fmt.Sprintf("probe %d %s %s %s", n.id, tok, a1, a2), []*c16Node{n})
 	s.note("probe", tok, a1+"/"+a2, sup, pre, n)
@@ -464,8 +480,22 @@ func (s *c16Scn) pickErr(ign bool) error {
 	return c16Counted[s.r.Intn(len(c16Counted))]
 }
 
+func c16AliveCount(n *c16Node) int {
+	c := 0
+	for _, tok := range []string{"d4", "d6", "t4", "t6", "u4", "u6"} {
+		if n.d.MustGetAlive(c16NT(tok)) {
+			c++
+		}
+	}
+	return c
+}
+
 func (s *c16Scn) note(kind, tok, detail string, sup, pre bool, n *c16Node) {
 	s.stats.Inc("typ." + tok)
+	// an escalation is recognised by its EFFECT: one counted failure takes all six domains down
+	if (kind == "txn" || kind == "tfail" || kind == "probe") && s.preCnt >= 2 && c16AliveCount(n) == 0 {
+		s.stats.Inc("escalation")
+	}
 	h := n.d.HealthSnapshot().Collections[c16Idx(tok)]
 	s.distinct[fmt.Sprintf("%s|%s|%s|sup%v|pre%v|post%v|f%d|t%d", kind, tok, detail, sup, pre, h.Alive,
 		c16Bucket(h.FailCount), c16Bucket(int(h.TrafficFailCount)))] = struct{}{}
@@ -507,6 +537,7 @@ func c16Bucket(c int) int {
 
 func (s *c16Scn) txn(n *c16Node, tok string, ign bool) {
 	sup, pre := dialer.VSuppressed(), n.d.MustGetAlive(c16NT(tok))
+	s.preCnt = c16AliveCount(n)
 	n.d.ReportUnavailableTransactional(c16NT(tok), s.pickErr(ign))
 	s.emit(fmt.Sprintf("txn %d %s %s", n.id, tok, c16Bool(ign)), []*c16Node{n})
 	if ign {
@@ -519,6 +550,7 @@ func (s *c16Scn) txn(n *c16Node, tok string, ign bool) {
 
 func (s *c16Scn) tfail(n *c16Node, tok string, ign bool) {
 	sup, pre := dialer.VSuppressed(), n.d.MustGetAlive(c16NT(tok))
+	s.preCnt = c16AliveCount(n)
 	n.d.ReportUnavailable(c16NT(tok), s.pickErr(ign))
 	s.emit(fmt.Sprintf("tfail %d %s %s", n.id, tok, c16Bool(ign)), []*c16Node{n})
 	if ign {
